@@ -30,6 +30,7 @@ func TestMain(m *testing.M) {
 			Rule:           "the shipped start() of rtcmlogger (in-package harness) under the controlled scheduler with stdin, stdout and the daily record writer owned by the harness (every Read and Write a scheduling point); inputs {empty, 1 byte, 3 bytes with 00 and D3, 5 bytes, 8095, 8096, 8097 and 16193 bytes}; stdin chunkings {everything the buffer takes, 1 byte, 2 bytes} for the small inputs and {buffer-full, 8095, 4000} for the large ones (all chunkings in the unbounded pass); event logging off/on; two scenarios in which the record writer fails on every call (the pass-through must still complete); every interleaving of the copying loop and the recorder goroutine; and, under the default schedule, 96 start-up environments with the record in REAL files of a scratch directory: host time zone {UTC, UTC+13, UTC-11, UTC+11:30} (local date equal to, ahead of, behind the UTC date) x record directory {absent, today's record already holds data, empty records of yesterday/today/tomorrow, nested directory to be created} x input {0, 5, 8097 bytes} x event logging off/on, oracle: the file named for the local date in the configured directory holds (old content +) stdin when start() returns. Oracle at the instant start() returns (the process exits next): stdout == stdin and record == stdin; the recorder has terminated at quiescence; no panic. Non-trivial = distinct schedule trace",
 			Assumptions:    []string{"dailylogger.New is redirected to an in-memory sink (schedule scenarios) or to a file-backed stand-in that keeps its contract - <dir>/<leader><local date><trailer>, created at construction, opened for appending, directory created on demand (record-file scenarios); rotation at midnight belongs to the go-tools dependency", "stdin errors other than EOF are not injected"},
 			Scenarios:      scenarios,
+			Post:           realBinary,
 			QuickBudget:    45 * time.Second,
 			ThoroughBudget: 6 * time.Minute,
 		})
@@ -68,7 +69,7 @@ func first(s string) string {
 
 func scenarios(tier string) []*mcrt.Scenario {
 	var scs []*mcrt.Scenario
-	for _, n := range []int{0, 1, 3, 5, 8095, 8096, 8097, 2*8096 + 1} {
+	for _, n := range []int{0, 1, 3, 5, 8095, 8096, 8097, 2*8096 + 1, 70001, 200001} {
 		for _, le := range []bool{false, true} {
 			for _, split := range []bool{false, true} {
 				n, le, split := n, le, split
@@ -326,4 +327,49 @@ func fileScenarios() []*mcrt.Scenario {
 		}
 	}
 	return scs
+}
+
+// realBinary: the shipped program from main() on, on real pipes and files.
+func realBinary(r *harness.EvRun) {
+	cfg := `{"log_events": %v, "message_log_directory": "%%DIR%%/rtcm", "event_log_directory": "%%DIR%%/events"}`
+	check := func(input []byte) func(stdout []byte, dir string, exit error) (string, string) {
+		return func(stdout []byte, dir string, exit error) (string, string) {
+			if !bytes.Equal(stdout, input) {
+				return "stdout-differs-from-stdin", fmt.Sprintf("%d bytes written to standard output, %d bytes read from standard input (exit: %v)", len(stdout), len(input), exit)
+			}
+			var rec []byte
+			ents, _ := os.ReadDir(dir + "/rtcm")
+			for _, e := range ents {
+				if strings.HasPrefix(e.Name(), "rtcmlogger.") && strings.HasSuffix(e.Name(), ".rtcm") {
+					b, _ := os.ReadFile(dir + "/rtcm/" + e.Name())
+					rec = append(rec, b...)
+				}
+			}
+			if !bytes.Equal(rec, input) {
+				return "days-record-file-in-the-configured-directory-differs-from-stdin", fmt.Sprintf("record holds %d bytes, input %d bytes", len(rec), len(input))
+			}
+			return "", ""
+		}
+	}
+	var cases []harness.RealCase
+	for _, n := range []int{0, 5, 8097, 500 * 8096} {
+		for _, le := range []bool{false, true} {
+			for _, tz := range []string{"UTC", "Pacific/Auckland", "Pacific/Pago_Pago"} {
+				if n > 10000 && tz != "UTC" && le {
+					continue
+				}
+				input := pattern(n)
+				c := harness.RealCase{Name: fmt.Sprintf("rtcmlogger -c config input=%dB log_events=%v TZ=%s", n, le, tz),
+					Args: []string{"-c", "%DIR%/config.json"}, Files: map[string]string{"config.json": fmt.Sprintf(cfg, le)},
+					Stdin: input, Env: []string{"TZ=" + tz}, Check: check(input)}
+				if n > 10000 {
+					// block by block, each one seen on the output before the next is sent:
+					// collections and finalizers get their chance while data still flows
+					c.Block, c.Progress = 8096, func(fed int) int { return fed }
+				}
+				cases = append(cases, c)
+			}
+		}
+	}
+	harness.RealBinary(r, "C16", "MC_REAL_BIN_rtcmlogger", cases)
 }
